@@ -23,6 +23,9 @@ struct IsoSpec {
     clients: Vec<ClientSpec>,
     pct: bool,
     slow_app: bool,
+    /// simulated time jumps between server steps (fractions of the expiry);
+    /// solo runs replay the times of the interleaved run
+    timed: bool,
 }
 
 /// Pairs (and triples) of keys that differ in exactly one component.
@@ -84,14 +87,18 @@ fn gen_spec(ch: &mut Ch) -> IsoSpec {
     let n = 2 + ch.weighted(&[70, 30], "iso.n");
     let extra_blocks = if thorough() { 3 } else { 0 };
     let keys = key_variants(ch, n);
-    let szx = ch.below(3, "iso.szx") as u8;
+    // now and then: large representations (tens of KiB, 1024-byte blocks) of
+    // which every client fetches / sends only the first few blocks
+    let big = ch.chance(1, 10, "iso.big");
+    let timed = !big && ch.chance(1, 3, "iso.timed");
+    let szx = if big { 6 } else { ch.below(3, "iso.szx") as u8 };
     let size = 16usize << szx;
     let mut resources: BTreeMap<Vec<Vec<u8>>, ResSpec> = BTreeMap::new();
     let mut clients = Vec::new();
     // one budget for the server: room for exactly this block size
-    let budget = 40 + size + ch.below(10, "iso.budget.slack") as usize;
+    let budget = if big { 1152 } else { 40 + size + ch.below(10, "iso.budget.slack") as usize };
     for (ci, (ep, method, path)) in keys.iter().enumerate() {
-        let nblocks = 2 + ch.below(4 + extra_blocks, "iso.nblocks") as usize;
+        let nblocks = if big { 20 + ch.below(45, "iso.nblocks.big") as usize } else { 2 + ch.below(4 + extra_blocks, "iso.nblocks") as usize };
         let len = nblocks * size - ch.below(size as u64, "iso.tail") as usize;
         let r = resources.entry(path.clone()).or_insert_with(|| ResSpec { lens: vec![len], opts: vec![], up_reply_lens: vec![0], own_block2: None, code: None });
         let upload = !(*method == 1 || *method == 5);
@@ -115,7 +122,10 @@ fn gen_spec(ch: &mut Ch) -> IsoSpec {
         let mut t = default_transfer(*method, path.clone(), kind);
         t.token_len = ch.below(9, "iso.toklen") as usize;
         t.con = !ch.chance(1, 6, "iso.non");
-        let nex = nblocks as u32 + 1;
+        if big {
+            t.stop_after = Some(3 + ch.below(4, "iso.big.stop") as u32);
+        }
+        let nex = if big { 6 } else { nblocks as u32 + 1 };
         for e in 0..nex {
             if ch.chance(1, 8, "iso.lose") {
                 t.lose_replies.push((e, 1));
@@ -131,11 +141,12 @@ fn gen_spec(ch: &mut Ch) -> IsoSpec {
         });
     }
     IsoSpec {
-        server: ServerCfg { budget, expiry_ns: 1_000_000 * SEC, check_wire: false, snapshots: false, feed_all_types: false, record_held: false, held_every: 1, held_always_from: 0 },
+        server: ServerCfg { budget, expiry_ns: if timed { 40 * MS + ch.below(60, "iso.expiry") * MS } else { 1_000_000 * SEC }, check_wire: false, snapshots: false, feed_all_types: false, record_held: false, held_every: 1, held_always_from: 0 },
         resources,
         clients,
         pct: ch.below(2, "iso.pct") == 1,
         slow_app: ch.below(2, "iso.slow-app") == 1,
+        timed,
     }
 }
 
@@ -148,6 +159,10 @@ struct StepClient {
 }
 
 struct StepResult {
+    /// per client: the simulated time of each of its server steps
+    times: Vec<Vec<u64>>,
+    /// per client: the split-phase decision at each application call
+    splits: Vec<Vec<bool>>,
     transcripts: Vec<Vec<Vec<u8>>>,
     order: Vec<u8>,
     violations: Vec<Violation>,
@@ -159,7 +174,7 @@ struct StepResult {
 
 /// Runs the given clients (all of `spec.clients` or a single one) under the
 /// scheduler `pick`.
-fn step_world(spec: &IsoSpec, who: &[usize], sched: &mut dyn FnMut(&[usize], usize) -> usize, split: &mut dyn FnMut() -> bool, verbose: bool) -> StepResult {
+fn step_world(spec: &IsoSpec, who: &[usize], sched: &mut dyn FnMut(&[usize], usize) -> usize, split: &mut dyn FnMut(usize, usize) -> bool, clock: &mut dyn FnMut(usize, usize, u64) -> u64, verbose: bool) -> StepResult {
     FakeClock::reset();
     let mut now: u64 = 0;
     let mut stats = Stats::default();
@@ -201,6 +216,8 @@ fn step_world(spec: &IsoSpec, who: &[usize], sched: &mut dyn FnMut(&[usize], usi
     }
     let mut order = Vec::new();
     let mut steps = 0usize;
+    let mut times: Vec<Vec<u64>> = vec![Vec::new(); cs.len()];
+    let mut splits: Vec<Vec<bool>> = vec![Vec::new(); cs.len()];
     loop {
         let runnable: Vec<usize> = (0..cs.len()).filter(|&i| cs[i].pending.is_some() || !cs[i].outq.is_empty()).collect();
         if runnable.is_empty() || server.dead || steps > 400 {
@@ -208,7 +225,11 @@ fn step_world(spec: &IsoSpec, who: &[usize], sched: &mut dyn FnMut(&[usize], usi
         }
         let i = sched(&runnable, steps);
         steps += 1;
-        now += MS;
+        // the time of this step: one more millisecond, plus a jump drawn by
+        // the caller (interleaved run), or the time the same step of this
+        // client had in the interleaved run (solo run)
+        now = clock(i, times[i].len(), now);
+        times[i].push(now);
         FakeClock::set_ns(now);
         let ep = spec.clients[who[i]].ep;
         let reply = if let Some(p) = cs[i].pending.take() {
@@ -220,7 +241,9 @@ fn step_world(spec: &IsoSpec, who: &[usize], sched: &mut dyn FnMut(&[usize], usi
             match server.begin(now, ep, tag, &bytes, false, false, &mut stats, &mut trace, &mut shapes) {
                 Step::Done(r) => r,
                 Step::NeedsApp(p) => {
-                    if split() {
+                    let decided = split(i, splits[i].len());
+                    splits[i].push(decided);
+                    if decided {
                         stats.hit("fault.slow-app-split");
                         cs[i].pending = Some(p);
                         continue;
@@ -250,7 +273,7 @@ fn step_world(spec: &IsoSpec, who: &[usize], sched: &mut dyn FnMut(&[usize], usi
         }
     }
     let violations = std::mem::take(&mut server.violations);
-    StepResult { transcripts: cs.iter().map(|c| c.transcript.clone()).collect(), order, violations, stats, trace: trace.lines, hash: trace.h.0, server }
+    StepResult { times, splits, transcripts: cs.iter().map(|c| c.transcript.clone()).collect(), order, violations, stats, trace: trace.lines, hash: trace.h.0, server }
 }
 
 pub fn run(ch: &mut Ch, verbose: bool) -> Outcome {
@@ -281,19 +304,49 @@ pub fn run(ch: &mut Ch, verbose: bool) -> Outcome {
                 runnable[ch.below(runnable.len() as u64, "iso.sched") as usize]
             }
         };
-        let mut split = || -> bool {
+        let mut split = |_i: usize, _k: usize| -> bool {
             let mut ch = ch_cell.borrow_mut();
             slow && ch.below(2, "iso.split") == 1
         };
-        step_world(&spec, &all, &mut sched, &mut split, verbose)
+        let expiry = spec.server.expiry_ns;
+        let timed = spec.timed;
+        let mut clock = |_i: usize, _k: usize, now: u64| -> u64 {
+            let mut ch = ch_cell.borrow_mut();
+            if timed && ch.chance(1, 4, "iso.jump") {
+                // 0.3 .. 0.9 of the expiry: no single jump expires anything,
+                // two of them do
+                now + MS + expiry * (3 + ch.below(7, "iso.jump.tenths")) / 10
+            } else {
+                now + MS
+            }
+        };
+        step_world(&spec, &all, &mut sched, &mut split, &mut clock, verbose)
     };
     let mut viol = inter.violations.clone();
     let mut stats = inter.stats.clone();
+    if spec.timed {
+        let mut all_t: Vec<u64> = inter.times.iter().flatten().copied().collect();
+        all_t.sort();
+        stats.add("fault.clock-jump", all_t.windows(2).filter(|w| w[1] - w[0] > MS).count() as u64);
+        for ts in &inter.times {
+            if ts.windows(2).any(|w| w[1] - w[0] >= spec.server.expiry_ns) {
+                stats.hit("probe.c12.expiry-elapsed-between-two-steps-of-a-transfer");
+            }
+        }
+    }
+    if spec.clients.iter().any(|c| c.lanes[0].transfers[0].stop_after.is_some()) {
+        stats.hit("probe.c12.large-representations");
+    }
     // ---- each client solo against a fresh handler ---------------------------
     for ci in 0..n {
         let mut sched = |runnable: &[usize], _s: usize| -> usize { runnable[0] };
-        let mut split = || false;
-        let solo = step_world(&spec, &[ci], &mut sched, &mut split, false);
+        // the solo run repeats this client's own timeline: the same
+        // split-phase decisions at the same simulated times
+        let isp = inter.splits[ci].clone();
+        let mut split = |_i: usize, k: usize| -> bool { isp.get(k).copied().unwrap_or(false) };
+        let its = inter.times[ci].clone();
+        let mut clock = |_i: usize, k: usize, now: u64| -> u64 { its.get(k).copied().unwrap_or(now + MS) };
+        let solo = step_world(&spec, &[ci], &mut sched, &mut split, &mut clock, false);
         stats.hit("c12.transcripts-compared");
         let a = &inter.transcripts[ci];
         let b = &solo.transcripts[0];
